@@ -77,6 +77,13 @@ def decorated(sh, salt, sid):
     return model.MT(sid, toks, root)
 
 
+def special_words(sh, words, sid):
+    m = decorated(sh, 0, sid)
+    for i, tk in enumerate(m.toks):
+        tk['word'] = words[i % len(words)]
+    return m
+
+
 def single_corpora(nmax, continuous):
     out = []
     for n in range(1, nmax + 1):
@@ -365,6 +372,49 @@ def check_directory(mtjs_a, mtjs_b, src, dest):
     return out
 
 
+def check_gf_transfer(mtjs, dest):
+    """Reader option and writer option with the same name in one command line: bracketed source whose labels
+    carry the function (LABEL-GF), `--src-opts gf_split` (default separator) and `--dest-opts gf gf_separator:#`.
+    The destination must show LABEL#GF on the constituents."""
+    mts = [model.MT.from_json(j) for j in mtjs]
+    case = {'gf_transfer': True, 'corpus': mtjs, 'dest': dest}
+    out = []
+
+    def bad(kind, detail):
+        out.append({'kind': kind, 'where': 'transform --src-opts gf_split --dest-opts gf gf_separator:#', 'case': case,
+                    'detail': '%s [corpus %s, brackets -> %s]' % (detail, [model.mt_str(m.root, m.toks) for m in mts], dest),
+                    'what': 'gf_split on the way in, gf with another separator on the way out: ' + kind})
+    d = workdir()
+    sp = os.path.join(d, 'in.mrg')
+    dp = os.path.join(d, 'out')
+    with open(sp, 'w', encoding='utf-8') as f:
+        f.write(codecs.encode_brackets(mts, gf='-'))
+    st, so, se, exc = cli.run(['transform', sp, dp, '--src-format', 'brackets', '--dest-format', dest.rstrip('34'),
+                               '--src-opts', 'gf_split', '--dest-opts', 'gf', 'gf_separator:#']
+                              + (['export_four'] if dest == 'export4' else []))
+    if st != 0:
+        bad('cli-failed', 'exit status %r %s' % (st, cli.describe(exc)))
+        return out
+
+    def rec(nd, is_root=True):
+        if isinstance(nd, int):
+            return nd
+        lab = nd[0]
+        if not (is_root and dest.startswith('export')) and nd[1] is not None and not nd[1].startswith('-'):
+            lab = nd[0] + '#' + nd[1]
+        return (lab, nd[1], tuple(rec(x, False) for x in nd[2]))
+    exp = [model.MT(k + 1, m.toks, rec(m.root)) for k, m in enumerate(mts)]
+    try:
+        carried = CARRY['brackets'] & CARRY[dest]
+        if dest.startswith('export'):
+            carried = carried | {'edge'}
+        for x in compare(project(exp, carried, dest in ('brackets', 'discobrackets')), decode_file(dp, dest), dest, 'destination'):
+            bad('content', x)
+    except codecs.DecodeError as e:
+        bad('undecodable', str(e))
+    return out
+
+
 def check_subprocess(mtjs, src, dest):
     """Conformance of the in-process CLI path: same exit status and identical destination bytes."""
     mts = [model.MT.from_json(j) for j in mtjs]
@@ -482,6 +532,8 @@ def check_case(case):
             return check_directory(case['a'], case['b'], case['src'], case['dest'])
         if case.get('sub'):
             return check_subprocess(case['corpus'], case['src'], case['dest'])
+        if case.get('gf_transfer'):
+            return check_gf_transfer(case['corpus'], case['dest'])
         return check_chain(case['corpus'], case['fmts'], case.get('dev'))
 
 
@@ -563,6 +615,21 @@ def run_chunk(chunk):
                 devs.append((Pc[:3], ['tigerxml', dest], {'dest_opts': ['gf'], 'expect': 'gf'}))
                 devs.append((Pc[:3], ['export4', dest], {'dest_opts': ['gf', 'gf_separator:#'], 'expect': 'gf', 'sep': '#'}))
                 devs.append((Pc[:3], ['export4', dest], {'dest_opts': ['gf', 'gf_separator:0'], 'expect': 'gf', 'sep': '0'}))
+            for dest in ('export3', 'brackets', 'discobrackets'):
+                take(check_gf_transfer([m.to_json() for m in Pc[:3]], dest), True, ('gf-transfer', dest))
+            # words with several bracket kinds (formats that can carry them as sources) and with non-ASCII spaces
+            par = [special_words(((1, 2), 3, 4), ['(SPD)', 'x[1]', '{a}', 'Student(inn)en'], 31),
+                   special_words((1, (2, 3)), ['(', ')', 'a)('], 32)]
+            nbsp = [special_words(((1, 2), 3), ['10\u00a0000', 'a\u202fb', 'x\u3000'], 33)]
+            for src in ('export3', 'export4', 'tigerxml'):
+                for dest in DEST:
+                    devs.append((par, [src, dest], {}))
+                devs.append((par, [src, 'discobrackets', 'tigerxml'], {}))
+                devs.append((par, [src, 'brackets', 'export4'], {}))
+            for dest in ('discobrackets', 'brackets', 'tigerxml'):
+                devs.append((nbsp, ['tigerxml', dest], {}))
+            devs.append((nbsp, ['tigerxml', 'discobrackets', 'tigerxml'], {}))
+            devs.append((nbsp, ['tigerxml', 'brackets', 'discobrackets'], {}))
             devs.append((P, ['export3', 'brackets'], {'dest_opts': ['brackets_skipdisco']}))
             devs.append((P, ['tigerxml', 'brackets'], {'dest_opts': ['brackets_skipdisco']}))
             for corp, fmts, dev in devs:
